@@ -1,2 +1,4 @@
 -- Root of the library: every property file (and through them the model, lemmas and generated tables).
+import BertE.Props.C01
 import BertE.Props.C06
+import BertE.Props.C07
